@@ -21,6 +21,8 @@ Section Aabb.
   Definition vadds (a : V3 F) (s : F) : V3 F := V (vx a + s) (vy a + s) (vz a + s).
   Definition vsubs (a : V3 F) (s : F) : V3 F := V (vx a - s) (vy a - s) (vz a - s).
   Definition vone_minus (a : V3 F) : V3 F := V (one - vx a) (one - vy a) (one - vz a).
+  (** np.maximum(0.0, a) *)
+  Definition vclamp0 (a : V3 F) : V3 F := vmap (fun x => fmax zero x) a.
 
   (** containment.axis_aligned_bounding_box:  np.min(P, axis=0), np.max(P, axis=0);
       [None] for an empty array (numpy raises ValueError) *)
@@ -40,11 +42,12 @@ Section Aabb.
 
   (** cylinder_aabb:
         axis = cylinder2origin[:3, 2]
-        extent = 0.5 * length * np.abs(axis) + radius * np.sqrt(1.0 - axis * axis) *)
+        extent = 0.5 * length * np.abs(axis)
+                 + radius * np.sqrt(np.maximum(0.0, 1.0 - axis * axis))      (clamp: fix F24) *)
   Definition cylinder_aabb (T : Pose F) (radius length : F) : V3 F * V3 F :=
     let axis := col (rot T) 2 in
     let extent := vadd (vscale (half * length) (vabs axis))
-                       (vscale radius (vsqrt (vone_minus (vmul axis axis)))) in
+                       (vscale radius (vsqrt (vclamp0 (vone_minus (vmul axis axis))))) in
     (vsub (trans T) extent, vadd (trans T) extent).
 
   (** capsule_aabb: extent = 0.5 * height * np.abs(capsule2origin[:3, 2]) + radius *)
@@ -69,14 +72,14 @@ Section Aabb.
     let extent := V (ext (r0 E)) (ext (r1 E)) (ext (r2 E)) in
     (vsub (trans T) extent, vadd (trans T) extent).
 
-  (** disk_aabb: e = radius * np.sqrt(1.0 - normal * normal) *)
+  (** disk_aabb: e = radius * np.sqrt(np.maximum(0.0, 1.0 - normal * normal)) *)
   Definition disk_aabb (center : V3 F) (radius : F) (normal : V3 F) : V3 F * V3 F :=
-    let e := vscale radius (vsqrt (vone_minus (vmul normal normal))) in
+    let e := vscale radius (vsqrt (vclamp0 (vone_minus (vmul normal normal)))) in
     (vsub center e, vadd center e).
 
   (** cone_aabb:
         pa = cone2origin[:3, 3]; pb = pa + height * cone2origin[:3, 2]; a = pb - pa
-        e = np.sqrt(1.0 - a * a / (height * height))
+        e = np.sqrt(np.maximum(0.0, 1.0 - a * a / (height * height)))
         np.minimum(pa - e * radius, pb), np.maximum(pa + e * radius, pb) *)
   Definition cone_aabb (T : Pose F) (radius height : F) : V3 F * V3 F :=
     let pa := trans T in
@@ -84,7 +87,7 @@ Section Aabb.
     let a := vsub pb pa in
     let hh := height * height in
     let q := vmul a a in
-    let e := vsqrt (vone_minus (V (vx q / hh) (vy q / hh) (vz q / hh))) in
+    let e := vsqrt (vclamp0 (vone_minus (V (vx q / hh) (vy q / hh) (vz q / hh)))) in
     let er := vscale radius e in                              (* e * radius *)
     (vmin (vsub pa er) pb, vmax (vadd pa er) pb).
 
